@@ -223,6 +223,72 @@ def gen_T07():
     for cname in ('Irc', 'IrcCallback', 'IrcState'):
         bases = [ast.unparse(b) for b in find_class(ti, cname).bases]
         need('log.Firewalled' in bases, '%s no longer derives from log.Firewalled' % cname)
+    # ---- the class hierarchy of callbacks and how log.MetaFirewall merges __firewalled__ over it ----
+    mf = find_def(tl, '__new__', 'MetaFirewall')
+    mfb = norm(mf.body)
+    tail = (" ; cls.updateFirewalled(firewalled, classdict.get('__firewalled__', [])) ; for attr, errorHandler in firewalled.items():     "
+            "if attr in classdict:         classdict[attr] = firewall(classdict[attr], errorHandler) ; "
+            "return super(MetaFirewall, cls).__new__(cls, name, bases, classdict)")
+    if mfb == ("firewalled = {} ; for base in bases:     if hasattr(base, '__firewalled__'):         "
+               "cls.updateFirewalled(firewalled, base.__firewalled__)" + tail):
+        merge_mro = False       # attribute lookup on the base: only the FIRST __firewalled__ of its MRO
+    elif mfb == ("firewalled = {} ; for base in bases:     for klass in reversed(base.__mro__):         "
+                 "cls.updateFirewalled(firewalled, klass.__dict__.get('__firewalled__', []))" + tail):
+        merge_mro = True        # every __firewalled__ of every class of the base's MRO, least derived first
+    else:
+        need(False, 'log.MetaFirewall.__new__: shape not understood: ' + mfb)
+    need(norm(find_def(tl, 'updateFirewalled', 'MetaFirewall').body) ==
+         'for attr in __firewalled__:     firewalled[attr] = cls.getErrorHandler(__firewalled__, attr)', 'MetaFirewall.updateFirewalled changed')
+    tc = tree('src/callbacks.py')
+    # name -> (module tree, bases as written); 'Firewalled'/'SynchronizedAndFirewalled' are made by calling the metaclass
+    pyclasses = {'object': ([], None)}
+
+    def add_class(tr, cname, rename=lambda b: b):
+        cd = find_class(tr, cname)
+        bases = [rename(ast.unparse(b)) for b in cd.bases]
+        own = None
+        for node in cd.body:
+            if isinstance(node, ast.Assign) and len(node.targets) == 1 and ast.unparse(node.targets[0]) == '__firewalled__':
+                need(isinstance(node.value, ast.Dict) and all(isinstance(k, ast.Constant) for k in node.value.keys),
+                     '%s.__firewalled__ is not a dict literal with constant keys' % cname)
+                own = [k.value for k in node.value.keys]
+        need(not cd.keywords or all(k.arg != 'metaclass' for k in cd.keywords), cname + ': explicit metaclass')
+        pyclasses[cname] = (bases, own)
+    strip = lambda b: {'log.Firewalled': 'Firewalled', 'irclib.IrcCallback': 'IrcCallback'}.get(b, b)
+    for made, where, tr in (('Firewalled', "MetaFirewall('Firewalled', (), {})", tl),
+                            ('SynchronizedAndFirewalled', "MetaSynchronizedAndFirewalled('SynchronizedAndFirewalled', (), {})", tc)):
+        v = [n for n in tr.body if isinstance(n, ast.Assign) and ast.unparse(n.targets[0]) == made]
+        need(len(v) == 1 and ast.unparse(v[0].value) == where, '%s is no longer %s' % (made, where))
+        pyclasses[made] = (['object'], None)
+    need([ast.unparse(b) for b in find_class(tc, 'MetaSynchronizedAndFirewalled').bases] == ['log.MetaFirewall', 'utils.python.MetaSynchronized'],
+         'MetaSynchronizedAndFirewalled bases changed')
+    add_class(ti, 'IrcCommandDispatcher', strip)
+    add_class(ti, 'IrcCallback', strip)
+    for cname in ('BasePlugin', 'Commands', 'PluginMixin', 'Plugin', 'PluginRegexp'):
+        add_class(tc, cname, strip)
+    for cname, (bases, own) in pyclasses.items():
+        need(all(b in pyclasses for b in bases), '%s: base class outside the inventory: %r' % (cname, bases))
+
+    def c3(cname):
+        bases = pyclasses[cname][0]
+        seqs = [c3(b) for b in bases] + [list(bases)]
+        res = [cname]
+        while any(seqs):
+            seqs = [s for s in seqs if s]
+            for s in seqs:
+                h = s[0]
+                if not any(h in o[1:] for o in seqs):
+                    break
+            else:
+                need(False, 'no consistent MRO for ' + cname)
+            res.append(h)
+            seqs = [[x for x in s if x != h] if s[0] == h else s for s in seqs]
+            seqs = [s[1:] if s and s[0] == h else s for s in seqs]
+        return res
+    class_rows = []
+    for cname in pyclasses:
+        bases, own = pyclasses[cname]
+        class_rows.append((cname, bases, c3(cname), own))
     # ---- the three inner try statements of Irc.feedMsg ----
     fm = find_def(ti, 'feedMsg', 'Irc')
     inner = {}
@@ -433,6 +499,12 @@ def gen_T07():
     out += 'Definition FEED_CALLBACK_CATCHES : list cls := %s.\n' % clist(inner['CALLBACK'])
     out += 'Definition IRC_FIREWALLED : list (list N) := %s.\n' % clist(cstr(n) for n, _, _ in irc_fw)
     out += 'Definition STATE_FIREWALLED : list (list N) := %s.\n' % clist(cstr(n) for n, _, _ in st_fw)
+    out += 'Definition METAFIREWALL_MERGES_MRO : bool := %s.\n' % cbool(merge_mro)
+    out += '(* (class, (bases, (MRO, own __firewalled__ keys if the class body has one))) *)\n'
+    out += 'Definition PYCLASSES : list (list N * (list (list N) * (list (list N) * option (list (list N))))) :=\n  %s.\n' % clist(
+        '(%s, (%s, (%s, %s)))' % (cstr(n), clist(cstr(b) for b in bs), clist(cstr(m) for m in mro),
+                                  'None' if own is None else 'Some ' + clist(cstr(k) for k in own))
+        for n, bs, mro, own in class_rows)
     out += 'Definition CALLBACK_FIREWALLED : list (list N * bool) :=\n  %s.\n' % clist(
         '(%s, %s)' % (cstr(n), cbool(h)) for n, h, _ in cb_fw)
     out += 'Definition NICK_SETTERS : list (list N) :=\n  %s.\n' % clist(cstr(x) for x in sorted(ns))
